@@ -36,6 +36,9 @@ RoundTrip(e) ==
                \cup (IF ld.ram_diff # <<>> THEN {"ram"} ELSE {})
                \* what the format does not carry is in its reset value, not inherited from the receiving machine
                \cup (IF st.halted # 0 \/ st.pfx # 0 \/ st.ei # 0 THEN {"inherited"} ELSE {})
+               \* "CPU-visible state equals the state at the moment of saving": the restored machine goes on exactly as a twin of
+               \* the saved one does (four instructions of known code; registers, R, IFF2, IM, halted after each)
+               \cup (IF ld.cont # e.cont_ref THEN {"continuation"} ELSE {})
         loadIssues == {<<e.loads[i].target, x>> : i \in DOMAIN e.loads, x \in UNION {LoadIssues(e.loads[j]) : j \in DOMAIN e.loads}}
         loadBad == {<<e.loads[i].target, x>> : i \in {j \in DOMAIN e.loads : LoadIssues(e.loads[j]) # {}}, x \in {"any"}}
         perLoad == UNION {{<<e.loads[i].target, x>> : x \in LoadIssues(e.loads[i])} : i \in DOMAIN e.loads}
@@ -77,6 +80,8 @@ FileLoad(e) ==
                                                attr == RamAt(d, ob, AttrOff(y, x \div 8))
                                            IN p[3] \notin {PixelOf(bmp, attr, x, FALSE), PixelOf(bmp, attr, x, TRUE)}
                         IN (IF \E i \in DOMAIN e.pix : BadPix(e.pix[i]) THEN {"display"} ELSE {})
+                           \* the frame the loaded machine continues, at lines the beam reaches after the moment of the load
+                           \cup (IF \E i \in DOMAIN e.pix_first : BadPix(e.pix_first[i]) THEN {"display:first-frame"} ELSE {})
                            \* after the program has switched to the other screen bank (128K, paging not locked)
                            \cup (IF \E i \in DOMAIN e.pix_other : BadOther(e.pix_other[i]) THEN {"display:other-screen"} ELSE {}))
                   \* "halted and EI-pending status"; nothing inherited from the receiving machine
